@@ -819,7 +819,7 @@ func computeSCEVBody(v ssa.Value, loop *Loop, depth int) SCEV {
 	}
 	if phi, ok := v.(*ssa.Phi); ok {
 		if phi.Block() == loop.Header {
-			if iv, exists := loop.Inductions[phi]; exists {
+			if iv, exists := loop.Inductions[phi]; exists && iv.Type == IVTypeBasic {
 				return &SCEVAddRec{Start: iv.Start, Step: iv.Step, Loop: loop}
 			}
 		}
